@@ -183,43 +183,99 @@ def mkGrams (sign : Bytes → Bytes → Except Exn Bytes) (curt : Bool) (nz : Na
         | .ok gs => .ok (g :: gs)
         | .error e => .error e
 
-/-- `Memoer.rend(memo, vid)`; `vid` is the effective vid (`vid if vid is not None else self.vid`, `none`/empty = falsy),
-`mid` what `makeMID()` returned.  Result: the grams in order. -/
-def rend (cfg : TxCfg) (sign : Bytes → Bytes → Except Exn Bytes) (memo : Bytes) (vid : Option Bytes) (mid : Bytes) :
-    Except Exn (List Bytes) := do
-  let size ← effSize cfg
-  let zs ← sizesOf cfg.code
-  let ncode ← match Gen.memoPairs.lookup cfg.code with
-    | some c => Except.ok c
-    | none => Except.error Exn.keyError
-  let ns ← sizesOf ncode
-  let vidt := vid.getD []
-  if zs.vz ≠ 0 ∧ (vidt.isEmpty ∨ vidt.length ≠ zs.vz) then throw Exn.memoerError
-  if mid.length ≠ zs.mz then throw Exn.memoerError
-  -- header parts on the wire
-  let zcodeb ← if cfg.curt then decodeOrRaise cfg.code else pure cfg.code
-  let ncodeb ← if cfg.curt then decodeOrRaise ncode else pure ncode
-  let midb ← if cfg.curt then decodeOrRaise mid else pure mid
-  let vidb ← if cfg.curt then decodeOrRaise vidt else pure vidt
-  let zsz := if cfg.curt then zs.scale else zs
-  let zoz := if cfg.curt then 3 * zs.oz / 4 else zs.oz
-  let noz := ns.oz      -- NOT scaled when curt (the tree's own test pins the resulting gram count)
-  let zbz := size - zoz -- ≥ 1 by the setter
-  let ml := memo.length
-  -- nbz = size - noz may be ≤ 0
-  if size < noz then throw Exn.memoerError        -- mms is negative: "Memo length exceeds max"
-  let nbz := size - noz
-  if ml > zbz ∧ nbz = 0 then throw Exn.zeroDivisionError
-  let gc := gramCount ml zbz nbz
-  let mms := min Gen.maxMemoSize (nbz * (Gen.maxGramCount - 1) + zbz)
-  if ml > mms then throw Exn.memoerError
-  let gcnt ← numField cfg.curt gc zsz.nz
-  match bodies zbz nbz memo with
-  | [] => pure []
+/-- everything `rend` computes before it starts cutting the memo -/
+structure Plan where
+  zcodeb : Bytes      -- zeroth code on the wire
+  ncodeb : Bytes      -- non-zeroth code on the wire
+  midb : Bytes
+  vidb : Bytes
+  vidt : Bytes        -- vid text handed to `sign`
+  nz : Nat            -- width of the number / count field on the wire
+  zWithVid : Bool
+  zSigned : Bool
+  nWithVid : Bool
+  nSigned : Bool
+  zbz : Nat           -- zeroth body size
+  nbz : Nat           -- later body size
+  gcnt : Bytes        -- the count field
+deriving Repr
+
+def lookupPair (code : Bytes) : Except Exn Bytes :=
+  match Gen.memoPairs.lookup code with
+  | some c => .ok c
+  | none => .error .keyError
+
+/-- zeroth overhead on the wire: scaled by 3/4 with Base2 headers -/
+def zozOf (cfg : TxCfg) (zs : Sizage) : Nat := if cfg.curt then 3 * zs.oz / 4 else zs.oz
+
+def zszOf (cfg : TxCfg) (zs : Sizage) : Sizage := if cfg.curt then zs.scale else zs
+
+def wireOf (cfg : TxCfg) (t : Bytes) : Except Exn Bytes := if cfg.curt then decodeOrRaise t else .ok t
+
+/-- the head of `Memoer.rend(memo, vid)` for a memo of `ml` bytes; `vidt` is the effective vid text
+(`vid if vid is not None else self.vid`, empty = falsy), `mid` what `makeMID()` returned.
+The non-zeroth overhead `ns.oz` is NOT scaled when curt (the tree's own test pins the resulting gram count), so the
+later body size `size - ns.oz` may be ≤ 0: negative gives "Memo length exceeds max" (mms negative), zero gives ZeroDivisionError
+unless the memo fits the zeroth gram. -/
+def rendPlanT (cfg : TxCfg) (ml : Nat) (vidt : Bytes) (mid : Bytes) : Except Exn Plan :=
+  match effSize cfg with
+  | .error e => .error e
+  | .ok size =>
+  match sizesOf cfg.code with
+  | .error e => .error e
+  | .ok zs =>
+  match lookupPair cfg.code with
+  | .error e => .error e
+  | .ok ncode =>
+  match sizesOf ncode with
+  | .error e => .error e
+  | .ok ns =>
+  if zs.vz ≠ 0 ∧ (vidt.isEmpty ∨ vidt.length ≠ zs.vz) then .error .memoerError
+  else if mid.length ≠ zs.mz then .error .memoerError
+  else
+  match wireOf cfg cfg.code with
+  | .error e => .error e
+  | .ok zcodeb =>
+  match wireOf cfg ncode with
+  | .error e => .error e
+  | .ok ncodeb =>
+  match wireOf cfg mid with
+  | .error e => .error e
+  | .ok midb =>
+  match wireOf cfg vidt with
+  | .error e => .error e
+  | .ok vidb =>
+  if size < ns.oz then .error .memoerError
+  else if ml > size - zozOf cfg zs ∧ size - ns.oz = 0 then .error .zeroDivisionError
+  else if ml > min Gen.maxMemoSize ((size - ns.oz) * (Gen.maxGramCount - 1) + (size - zozOf cfg zs)) then .error .memoerError
+  else
+  match numField cfg.curt (gramCount ml (size - zozOf cfg zs) (size - ns.oz)) (zszOf cfg zs).nz with
+  | .error e => .error e
+  | .ok gcnt =>
+    .ok ⟨zcodeb, ncodeb, midb, vidb, vidt, (zszOf cfg zs).nz, (zszOf cfg zs).vz ≠ 0, (zszOf cfg zs).az ≠ 0, ns.vz ≠ 0, ns.az ≠ 0,
+         size - zozOf cfg zs, size - ns.oz, gcnt⟩
+
+def rendPlan (cfg : TxCfg) (ml : Nat) (vid : Option Bytes) (mid : Bytes) : Except Exn Plan :=
+  rendPlanT cfg ml (vid.getD []) mid
+
+/-- the `while memo:` loop of `rend` -/
+def assemble (cfg : TxCfg) (sign : Bytes → Bytes → Except Exn Bytes) (pl : Plan) (memo : Bytes) : Except Exn (List Bytes) :=
+  match bodies pl.zbz pl.nbz memo with
+  | [] => .ok []
   | b0 :: bs =>
-    let g0 ← mkGram sign zcodeb gcnt midb vidb (zsz.vz ≠ 0) (zsz.az ≠ 0) vidt b0
-    let gs ← mkGrams sign cfg.curt zsz.nz ncodeb midb vidb (ns.vz ≠ 0) (ns.az ≠ 0) vidt 1 bs
-    pure (g0 :: gs)
+    match mkGram sign pl.zcodeb pl.gcnt pl.midb pl.vidb pl.zWithVid pl.zSigned pl.vidt b0 with
+    | .error e => .error e
+    | .ok g0 =>
+      match mkGrams sign cfg.curt pl.nz pl.ncodeb pl.midb pl.vidb pl.nWithVid pl.nSigned pl.vidt 1 bs with
+      | .error e => .error e
+      | .ok gs => .ok (g0 :: gs)
+
+/-- `Memoer.rend(memo, vid)`: the grams in order -/
+def rend (cfg : TxCfg) (sign : Bytes → Bytes → Except Exn Bytes) (memo : Bytes) (vid : Option Bytes) (mid : Bytes) :
+    Except Exn (List Bytes) :=
+  match rendPlan cfg memo.length vid mid with
+  | .error e => .error e
+  | .ok pl => assemble cfg sign pl memo
 
 /-! ### receive side: `wiff`, `pick` -/
 
@@ -257,45 +313,71 @@ def classify (code : Bytes) (vidOf : Bytes → Option Bytes) (n : Nat) (mid vid 
     else .ok (n, none, vid)
   else .error .memoerError
 
+/-- the end of `pick`: verify when there is a signature, then `mid.decode()`, `vid.decode()` -/
+def pickTail (V : Bytes → Bytes → Bytes → Except Exn Unit) (mid vid : Bytes) (midText : Bool) (gn : Nat) (gc : Option Nat)
+    (sig fore body : Bytes) : Except Exn PG :=
+  match (if sig.isEmpty then Except.ok () else V vid sig fore) with
+  | .error e => .error e
+  | .ok _ =>
+    if !midText then .error .unicodeDecodeError
+    else if !vid.isEmpty && !utf8Valid vid then .error .unicodeDecodeError
+    else .ok ⟨mid, if vid.isEmpty then none else some vid, gn, gc, body⟩
+
+/-- the signature (as qb64 text) and the signed part of a gram with part sizes `s` (`sigConv` = `encodeB64` for Base2 headers) -/
+def sigOf (s : Sizage) (sigConv : Bytes → Bytes) (gram : Bytes) : Bytes := if s.az = 0 then [] else sigConv (lastN s.az gram)
+
+def foreOf (s : Sizage) (gram : Bytes) : Bytes := if s.az = 0 then gram else dropLastN s.az gram
+
+/-- the part of `pick` after the header fields have been sliced out -/
+def pickBody (code : Bytes) (s : Sizage) (vidOf : Bytes → Option Bytes) (V : Bytes → Bytes → Bytes → Except Exn Unit) (gram : Bytes)
+    (n : Nat) (mid vid0 : Bytes) (midText : Bool) (sigConv : Bytes → Bytes) : Except Exn PG :=
+  match classify code vidOf n mid vid0 midText with
+  | .error e => .error e
+  | .ok (gn, gc, vid) =>
+    pickTail V mid vid midText gn gc (sigOf s sigConv gram) (foreOf s gram) ((foreOf s gram).drop (s.oz - s.az))
+
+/-- Base2 header branch of `pick` -/
+def pickB2 (authic : Bool) (vidOf : Bytes → Option Bytes) (V : Bytes → Bytes → Bytes → Except Exn Unit) (gram : Bytes) : Except Exn PG :=
+  if gram.length < 3 then .error .memoerError
+  else match liftB64 (B64.codeB2ToB64 gram 4) with
+    | .error e => .error e
+    | .ok code =>
+      if authic && !Gen.authDex.contains code then .error .memoerError
+      else match sizesOf code with
+        | .error e => .error e
+        | .ok s0 =>
+          if gram.length < s0.scale.oz then .error .memoerError
+          else
+            pickBody code s0.scale vidOf V gram
+              (B64.fromBytes (slice gram s0.scale.bz (s0.scale.bz + s0.scale.nz)))
+              (encodeB64 (slice gram (s0.scale.bz + s0.scale.nz) (s0.scale.bz + s0.scale.nz + s0.scale.mz)))
+              (encodeB64 (slice gram (s0.scale.bz + s0.scale.nz + s0.scale.mz) (s0.scale.bz + s0.scale.nz + s0.scale.mz + s0.scale.vz)))
+              true encodeB64
+
+/-- Base64 text header branch of `pick` -/
+def pickB64 (authic : Bool) (vidOf : Bytes → Option Bytes) (V : Bytes → Bytes → Bytes → Except Exn Unit) (gram : Bytes) : Except Exn PG :=
+  if gram.length < 4 then .error .memoerError
+  else if !utf8Valid (gram.take 4) then .error .unicodeDecodeError
+  else if authic && !Gen.authDex.contains (gram.take 4) then .error .memoerError
+  else match sizesOf (gram.take 4) with
+    | .error e => .error e
+    | .ok s =>
+      if gram.length < s.oz then .error .memoerError
+      else match b64ToIntBytes (slice gram s.bz (s.bz + s.nz)) with
+        | .error e => .error e
+        | .ok n =>
+          pickBody (gram.take 4) s vidOf V gram n
+            (slice gram (s.bz + s.nz) (s.bz + s.nz + s.mz))
+            (slice gram (s.bz + s.nz + s.mz) (s.bz + s.nz + s.mz + s.vz))
+            (utf8Valid (slice gram (s.bz + s.nz) (s.bz + s.nz + s.mz))) id
+
 /-- `Memoer.pick(gram)` for a non-empty gram.  `vidOf` is `self.vids.get`, `V vid sig ser` is `self.verify`. -/
 def pick (authic : Bool) (vidOf : Bytes → Option Bytes) (V : Bytes → Bytes → Bytes → Except Exn Unit) (gram : Bytes) :
-    Except Exn PG := do
-  let curt ← wiff gram
-  if curt then
-    if gram.length < 3 then throw Exn.memoerError
-    let code ← liftB64 (B64.codeB2ToB64 gram 4)
-    if authic ∧ ¬ Gen.authDex.contains code then throw Exn.memoerError
-    let s0 ← sizesOf code
-    let s := s0.scale
-    if gram.length < s.oz then throw Exn.memoerError
-    let n := B64.fromBytes (slice gram s.bz (s.bz + s.nz))
-    let mid := encodeB64 (slice gram (s.bz + s.nz) (s.bz + s.nz + s.mz))
-    let vid0 := encodeB64 (slice gram (s.bz + s.nz + s.mz) (s.bz + s.nz + s.mz + s.vz))
-    let (gn, gc, vid) ← classify code vidOf n mid vid0 true
-    let sig := if s.az = 0 then [] else encodeB64 (lastN s.az gram)
-    let fore := if s.az = 0 then gram else dropLastN s.az gram
-    let body := fore.drop (s.oz - s.az)
-    if ¬ sig.isEmpty then V vid sig fore
-    if ¬ vid.isEmpty ∧ ¬ utf8Valid vid then throw Exn.unicodeDecodeError
-    pure ⟨mid, if vid.isEmpty then none else some vid, gn, gc, body⟩
-  else
-    if gram.length < 4 then throw Exn.memoerError
-    let code := gram.take 4
-    if ¬ utf8Valid code then throw Exn.unicodeDecodeError
-    if authic ∧ ¬ Gen.authDex.contains code then throw Exn.memoerError
-    let s ← sizesOf code
-    if gram.length < s.oz then throw Exn.memoerError
-    let n ← b64ToIntBytes (slice gram s.bz (s.bz + s.nz))
-    let mid := slice gram (s.bz + s.nz) (s.bz + s.nz + s.mz)
-    let vid0 := slice gram (s.bz + s.nz + s.mz) (s.bz + s.nz + s.mz + s.vz)
-    let (gn, gc, vid) ← classify code vidOf n mid vid0 (utf8Valid mid)
-    let sig := if s.az = 0 then [] else lastN s.az gram
-    let fore := if s.az = 0 then gram else dropLastN s.az gram
-    let body := fore.drop (s.oz - s.az)
-    if ¬ sig.isEmpty then V vid sig fore
-    if ¬ utf8Valid mid then throw Exn.unicodeDecodeError
-    if ¬ vid.isEmpty ∧ ¬ utf8Valid vid then throw Exn.unicodeDecodeError
-    pure ⟨mid, if vid.isEmpty then none else some vid, gn, gc, body⟩
+    Except Exn PG :=
+  match wiff gram with
+  | .error e => .error e
+  | .ok true => pickB2 authic vidOf V gram
+  | .ok false => pickB64 authic vidOf V gram
 
 /-! ### receive side: state, `_serviceOneReceived`, `fuse`, `_serviceOnceRxGrams` -/
 
@@ -458,33 +540,40 @@ deriving Repr
 def SendRes.count (r : SendRes) (len : Nat) : Nat :=
   match r with
   | .accept n => min n len
-  | _ => 0
+  | .block => 0
+  | .err _ => 0
 
-/-- `_serviceOnceTxGrams`.  An exhausted script means the transport accepts everything. -/
+/-- the outcome of the next `send`: an exhausted script means the transport accepts everything -/
+def nextRes (script : List SendRes) (len : Nat) : SendRes :=
+  match script with
+  | [] => .accept len
+  | r :: _ => r
+
+/-- the part of `_serviceOnceTxGrams` after the gram to send has been chosen: `send(gram, dst)` answered `r` -/
+def sendStep (st : Tx) (gram : Bytes) (dst : Nat) (rest : List (Bytes × Nat)) (r : SendRes) (script' : List SendRes) : TxStep :=
+  match r with
+  | .err e =>
+    if Gen.txDropErrnos.contains e then
+      ⟨true, ⟨rest, [], none⟩, script', [⟨dst, gram, r⟩], none⟩
+    else
+      -- re-raised: the popped gram is gone from `.txgs`, `.txbs` keeps its old value
+      ⟨false, ⟨rest, st.txb, st.txdst⟩, script', [⟨dst, gram, r⟩], some (.osError e)⟩
+  | .accept n =>
+    let left := gram.drop (min n gram.length)
+    if left.isEmpty then ⟨true, ⟨rest, left, none⟩, script', [⟨dst, gram, r⟩], none⟩
+    else ⟨false, ⟨rest, left, some dst⟩, script', [⟨dst, gram, r⟩], none⟩
+  | .block =>
+    if gram.isEmpty then ⟨true, ⟨rest, gram, none⟩, script', [⟨dst, gram, r⟩], none⟩
+    else ⟨false, ⟨rest, gram, some dst⟩, script', [⟨dst, gram, r⟩], none⟩
+
+/-- `_serviceOnceTxGrams` -/
 def onceTx (st : Tx) (script : List SendRes) : TxStep :=
-  let cur : Option (Bytes × Nat × List (Bytes × Nat)) :=
-    match st.txdst with
-    | some d => some (st.txb, d, st.txgs)
-    | none =>
-      match st.txgs with
-      | [] => none
-      | (g, d) :: rest => some (g, d, rest)
-  match cur with
-  | none => ⟨false, st, script, [], none⟩
-  | some (gram, dst, rest) =>
-    let r := script.headD (.accept gram.length)
-    let script' := script.tail
-    match r with
-    | .err e =>
-      if Gen.txDropErrnos.contains e then
-        ⟨true, ⟨rest, [], none⟩, script', [⟨dst, gram, r⟩], none⟩
-      else
-        -- re-raised: the popped gram is gone from `.txgs`, `.txbs` keeps its old value
-        ⟨false, ⟨rest, st.txb, st.txdst⟩, script', [⟨dst, gram, r⟩], some (.osError e)⟩
-    | _ =>
-      let left := gram.drop (r.count gram.length)
-      let dst' := if left.isEmpty then none else some dst
-      ⟨dst'.isNone, ⟨rest, left, dst'⟩, script', [⟨dst, gram, r⟩], none⟩
+  match st.txdst with
+  | some d => sendStep st st.txb d st.txgs (nextRes script st.txb.length) script.tail
+  | none =>
+    match st.txgs with
+    | [] => ⟨false, st, script, [], none⟩
+    | (g, d) :: rest => sendStep st g d rest (nextRes script g.length) script.tail
 
 def Tx.pending (st : Tx) : Bool := !st.txgs.isEmpty || st.txdst.isSome
 
@@ -508,5 +597,41 @@ def loopTx : Nat → Tx → List SendRes → TxStep
 so `2 * |txgs| + 2` iterations always suffice (`loopTx_fuel` in the lemmas) -/
 def serviceTxGrams (st : Tx) (script : List SendRes) : TxStep :=
   loopTx (2 * st.txgs.length + 2) st script
+
+/-- a history of calls on the transmit side -/
+inductive Call
+  | greedy                          -- serviceTxGrams()
+  | once                            -- serviceTxGramsOnce()
+  | enqueue (g : Bytes) (d : Nat)   -- gramit(g, d)
+deriving Repr, DecidableEq
+
+def serviceCall (greedy : Bool) (st : Tx) (script : List SendRes) : TxStep :=
+  if greedy then serviceTxGrams st script else serviceTxGramsOnce st script
+
+structure TxRun where
+  st : Tx
+  script : List SendRes
+  evs : List TxEv
+  escaped : Option Exn
+deriving Repr
+
+/-- run a history; stops at the first exception that escapes a service call -/
+def runCalls : List Call → Tx → List SendRes → TxRun
+  | [], st, sc => ⟨st, sc, [], none⟩
+  | .enqueue g d :: cs, st, sc => runCalls cs { st with txgs := st.txgs ++ [(g, d)] } sc
+  | .greedy :: cs, st, sc =>
+    let r := serviceCall true st sc
+    match r.escaped with
+    | some e => ⟨r.st, r.script, r.evs, some e⟩
+    | none =>
+      let r2 := runCalls cs r.st r.script
+      ⟨r2.st, r2.script, r.evs ++ r2.evs, r2.escaped⟩
+  | .once :: cs, st, sc =>
+    let r := serviceCall false st sc
+    match r.escaped with
+    | some e => ⟨r.st, r.script, r.evs, some e⟩
+    | none =>
+      let r2 := runCalls cs r.st r.script
+      ⟨r2.st, r2.script, r.evs ++ r2.evs, r2.escaped⟩
 
 end Hio.Memo
